@@ -1,52 +1,425 @@
+// c17: OS-type emulation does not depend on the host.
+//
+// Built with -tags verif,avfs_setostype. Three parts, all exhaustive
+// enumerations on real instances (no sampling):
+//
+//	(A) static facts of Linux-/Windows-typed MemFS and OrefaFS, and the family
+//	    (avfs.LinuxError / avfs.WindowsError / OS-independent) of the error
+//	    values of a list of deliberately failing calls;
+//	(B) every sequence <= n of VolumeAdd/VolumeDelete/VolumeList (+ Mkdir/Stat
+//	    on the volumes) against a set model;
+//	(C) engine A (lib/bfs): every history <= d of namespace calls written with
+//	    portable paths, executed in lock-step on a Linux-typed and a
+//	    Windows-typed instance; per call: same success/failure (finer: same
+//	    error class, right error family), afterwards isomorphic trees.
 package main
 
 import (
+	"encoding/json"
+	"flag"
 	"fmt"
+	"os"
+	"path/filepath"
+	"sort"
+	"strconv"
+	"strings"
+	"time"
 
 	"github.com/avfs/avfs"
 	"github.com/avfs/avfs/verifrt"
-	"github.com/avfs/avfs/vfs/memfs"
-	"github.com/avfs/avfs/vfs/orefafs"
 
-	"verif/lib/fsx"
+	"verif/lib/bfs"
+	"verif/lib/ev"
+	"verif/lib/kf"
 )
 
+func setSeq() { verifrt.SetMode(verifrt.ModeSeq) }
+
+// inst aggregates the instances of one signature; the replay kept is the one
+// with the shortest, then lexicographically smallest, history (deterministic
+// whatever the worker scheduling).
+type inst struct {
+	sig    kf.Sig
+	count  int
+	hist   []string
+	op     string
+	system string
+	detail string
+}
+
+func lessHist(a []string, aop string, b []string, bop string) bool {
+	if len(a) != len(b) {
+		return len(a) < len(b)
+	}
+
+	as, bs := strings.Join(a, "\x00")+"\x00"+aop, strings.Join(b, "\x00")+"\x00"+bop
+
+	return as < bs
+}
+
 func main() {
-	verifrt.SetMode(verifrt.ModeSeq)
-	fmt.Println("build feat", avfs.BuildFeatures())
-	for _, ost := range []avfs.OSType{avfs.OsLinux, avfs.OsWindows} {
-		tmp, root := "/tmp", "/"
-		if ost == avfs.OsWindows {
-			tmp, root = `C:\tmp`, `C:\`
-		}
-		dirs := []avfs.DirInfo{{Path: tmp, Perm: 0o777}}
-		for _, v := range []avfs.VFS{
-			memfs.NewWithOptions(&memfs.Options{OSType: ost, SystemDirs: dirs}),
-			orefafs.NewWithOptions(&orefafs.Options{OSType: ost, SystemDirs: dirs}),
-		} {
-			fmt.Println("==", v.Type(), v.OSType(), string(v.PathSeparator()), v.Features(), "umask", v.UMask(), "user", v.User().Name())
-			_, isVM := v.(avfs.VolumeManager)
-			fmt.Println("volmgr", isVM)
-			fmt.Println(fsx.Do(v, fsx.Call{Op: "Chdir", A: root}))
-			fmt.Println(fsx.Do(v, fsx.Call{Op: "Mkdir", A: v.Join(root, "a"), Perm: 0o755}))
-			fmt.Println(fsx.Do(v, fsx.Call{Op: "WriteFile", A: v.Join(root, "a", "b"), Data: "x", Perm: 0o644}))
-			fmt.Println(fsx.Do(v, fsx.Call{Op: "Stat", A: root}))
-			fmt.Println(fsx.Do(v, fsx.Call{Op: "ReadDir", A: root}))
-			fmt.Println(fsx.Do(v, fsx.Call{Op: "Stat", A: "a"}))
-			for _, l := range fsx.Dump(v, root, fsx.DumpOpts{NoPerm: true, NoOwner: true, StripPfx: root}) {
-				fmt.Println("   ", l)
-			}
-			if vm, ok := v.(avfs.VolumeManager); ok {
-				fmt.Println(vm.VolumeList(), vm.VolumeAdd("D:"), vm.VolumeList())
-				fmt.Println(fsx.Do(v, fsx.Call{Op: "Stat", A: `D:\`}))
-				fmt.Println(fsx.Do(v, fsx.Call{Op: "Mkdir", A: `D:\dir`, Perm: 0o755}))
-				fmt.Println(fsx.Do(v, fsx.Call{Op: "Stat", A: `D:\dir`}))
-				fmt.Println(fsx.Do(v, fsx.Call{Op: "Stat", A: `d:\dir`}))
-				fmt.Println(vm.VolumeAdd("d:"), vm.VolumeAdd(`D:\x`), vm.VolumeAdd("x"), vm.VolumeAdd(""), vm.VolumeList())
-				var err error
-				k, m := fsx.Guard(func() { err = vm.VolumeDelete("D:") })
-				fmt.Println("del", k, m, err, vm.VolumeList())
+	id := flag.String("id", "C17", "")
+	tier := flag.String("tier", "quick", "")
+	depth := flag.Int("depth", 0, "history bound of part (C) (default 2 quick / 3 thorough)")
+	volLen := flag.Int("vol-len", 0, "sequence bound of part (B) (default 3 quick / 4 thorough)")
+	systems := flag.String("systems", "MemFS,OrefaFS", "file-system kinds of part (C)")
+	replay := flag.String("replay", "", "re-execute a replay file of part (C) and print what happens")
+
+	var wflag string
+
+	flag.StringVar(&wflag, bfs.WorkerArg[1:], "", "")
+	flag.Parse()
+
+	if avfs.BuildFeatures()&avfs.FeatSetOSType == 0 {
+		fmt.Fprintln(os.Stderr, "c17: harness error: binary built without -tags avfs_setostype (avfs.BuildFeatures() lacks FeatSetOSType)")
+		os.Exit(2)
+	}
+
+	bfs.MaybeWorker(pairFactory(*tier))
+	setSeq()
+
+	if *replay != "" {
+		os.Exit(doReplay(*replay, *tier))
+	}
+
+	if err := selfCheck(); err != nil {
+		// also reached when a constructor cannot produce the requested OS type:
+		// that case is reported by part (A) below, not here
+		if _, _, cerr := newSide("MemFS", true); cerr == nil {
+			if _, _, cerr = newSide("OrefaFS", true); cerr == nil {
+				fmt.Fprintln(os.Stderr, "c17: harness error:", err)
+				os.Exit(2)
 			}
 		}
 	}
+
+	verifDir := os.Getenv("VERIF_DIR")
+	if verifDir == "" {
+		verifDir = "."
+	}
+
+	rep, err := kf.NewReporter(*id, filepath.Join(verifDir, "known_findings.txt"), filepath.Join(verifDir, "replays"))
+	if err != nil {
+		fmt.Fprintln(os.Stderr, err)
+		os.Exit(2)
+	}
+
+	rep.Discover = os.Getenv("VERIF_DISCOVER") != ""
+
+	d := *depth
+	if d == 0 {
+		d = 2
+		if *tier == "thorough" {
+			d = 3
+		}
+	}
+
+	vl := *volLen
+	if vl == 0 {
+		vl = 3
+		if *tier == "thorough" {
+			vl = 4
+		}
+	}
+
+	budget := 0
+	if b, err := strconv.Atoi(os.Getenv("VERIF_BUDGET_S")); err == nil {
+		budget = b
+	} else if *tier == "thorough" {
+		budget = 1200
+	}
+
+	var deadline time.Time
+	if budget > 0 {
+		deadline = time.Now().Add(time.Duration(budget) * time.Second)
+	}
+
+	var (
+		sst        staticStats
+		vst        volStats
+		all        []bfs.Stats
+		harnessErr string
+		skipped    string
+	)
+
+	// ---- part (A)
+	consOK, herr := runStatic(rep, &sst)
+	if herr != nil {
+		harnessErr = "static: " + herr.Error()
+	}
+
+	if !consOK {
+		skipped = "a constructor did not produce the requested OS type: parts (B) and (C) skipped"
+	}
+
+	// ---- part (B)
+	if consOK && harnessErr == "" {
+		if err := runVolumes(rep, vl, &vst); err != nil {
+			harnessErr = "volumes: " + err.Error()
+		}
+	}
+
+	// ---- part (C)
+	agg := map[string]*inst{}
+
+	if consOK && harnessErr == "" {
+		for _, sn := range strings.Split(*systems, ",") {
+			probe := pairFactory(*tier)(sn)
+			cfg := bfs.Config{
+				System: sn, MaxDepth: d, Deadline: deadline,
+				Report: func(system string, hist []string, op string, v bfs.Viol) {
+					sig := kf.Sig(v.Sig)
+					if sig["fs"] == "" {
+						sig["fs"] = system // worker-crash
+						sig["part"] = "pair"
+					}
+
+					k := sig.String()
+
+					in, ok := agg[k]
+					if !ok {
+						in = &inst{sig: sig, hist: hist, op: op, system: system, detail: v.Detail}
+						agg[k] = in
+					} else if lessHist(hist, op, in.hist, in.op) {
+						in.hist, in.op, in.detail = hist, op, v.Detail
+					}
+
+					in.count++
+				},
+			}
+
+			st := bfs.Run(cfg, probe.OpString)
+			all = append(all, st)
+
+			if st.HarnessErr != "" {
+				harnessErr = sn + ": " + st.HarnessErr
+			}
+
+			fmt.Printf("C17 pair %s: ops=%d states=%d transitions=%d depth_completed=%d exhaustive=%v\n",
+				sn, probe.NumOps(), st.States, st.Transitions, st.DepthDone, st.Exhaustive)
+		}
+	}
+
+	keys := make([]string, 0, len(agg))
+	for k := range agg {
+		keys = append(keys, k)
+	}
+
+	sort.Strings(keys)
+
+	for _, k := range keys {
+		in := agg[k]
+
+		var det any
+
+		var dd detail
+		if json.Unmarshal([]byte(in.detail), &dd) == nil && dd.LinuxCall != "" {
+			det = dd
+		} else {
+			det = in.detail
+		}
+
+		r := map[string]any{
+			"part": "pair", "fs": in.system, "history": in.hist, "op": in.op, "detail": det,
+			"how": "fresh Linux-typed and Windows-typed " + in.system + " (SystemDirs: /tmp resp. C:\\tmp, umask 022, Chdir to the root); " +
+				"apply the history then op on both, paths built with each instance's own Join under its root; " +
+				"re-execute: ./check " + *id + " " + *tier + " -replay <this file>",
+		}
+
+		for i := 0; i < in.count; i++ {
+			rep.Report(in.sig, r)
+		}
+	}
+
+	// ---- evidence
+	states, trans := 0, 0
+	outcomes := map[string]int{}
+	exh := harnessErr == "" && consOK
+	depthDone := d
+
+	var samples []any
+
+	for _, st := range all {
+		states += st.States
+		trans += st.Transitions
+
+		for k, n := range st.Outcomes {
+			outcomes[k] += n
+		}
+
+		if !st.Exhaustive {
+			exh = false
+		}
+
+		if st.DepthDone < depthDone {
+			depthDone = st.DepthDone
+		}
+
+		for _, s := range st.Samples {
+			samples = append(samples, map[string]any{"part": "pair", "fs": st.System, "history": s})
+		}
+	}
+
+	if len(all) == 0 {
+		depthDone = 0
+	}
+
+	if len(vst.SampleSequence) > 0 {
+		samples = append(samples, map[string]any{"part": "volumes", "fs": "MemFS", "os_type": "Windows", "sequence": vst.SampleSequence})
+	}
+
+	if len(sst.Facts) > 0 {
+		samples = append(samples, map[string]any{"part": "static", "fact": sst.Facts[len(sst.Facts)-1]})
+	}
+
+	code := rep.Finish()
+	if harnessErr != "" {
+		fmt.Fprintln(os.Stderr, "c17: harness error:", harnessErr)
+
+		code = 2
+	}
+
+	e := ev.Evidence{
+		PropertyID: *id, Tier: *tier, Seed: ev.Seed(), Level: "model_checking",
+		Coverage: map[string]any{
+			"states": states, "transitions": trans, "traces_validated_against_impl": trans,
+			"evaluations": trans + vst.ChecksWindows + vst.ChecksLinux + sst.Checked, "distinct_nontrivial": len(outcomes),
+			"outcome_classes": outcomes,
+			"rule": "(C) every history of length <= bound over the portable call alphabet executed in lock-step on a fresh Linux-typed and a fresh Windows-typed real instance, oracle on every transition; " +
+				"(B) every sequence of length <= bound over the volume alphabet executed on a fresh real MemFS of each OS type against the set model; " +
+				"(A) fixed list of facts and failing calls; states/transitions count part (C) only; evaluations = oracle evaluations of (A)+(B)+(C); " +
+				"distinct_nontrivial = distinct (call, Linux-typed outcome kind) classes observed in (C) (listed in outcome_classes; those of (B) are in volumes.outcome_classes)",
+			"samples":    samples,
+			"exhaustive": exh,
+			"bound": fmt.Sprintf("pair histories of length <= %d (completed %d) over names {a,b} depth <= 2; volume sequences of length <= %d over %d calls",
+				d, depthDone, vl, vst.AlphabetSize),
+			"systems": all, "static": sst, "volumes": vst,
+			"static_facts_checked": sst.Checked, "volume_sequences_enumerated": vst.Sequences,
+			"known_findings_matched": rep.KnownMatched(), "skipped": skipped,
+			"violation_instances": rep.Total,
+		},
+		Assumptions: []string{
+			"state identity of (C) = portable tree dump of the Linux-typed side through the public API (names, types, sizes, bytes, link counts, link targets, hard-link classes; no permission bits, owners, mtimes) + its current directory; a state whose two sides differ is keyed by both dumps and not expanded",
+			"permission bits and owners are never compared; Chown, Lchown, Chmod are not in the alphabet (documented as OS-specific); mtimes are not compared (not named by the property)",
+			"correspondence of error values = avfs.Errors.SetOSType table plus the explicit OSType()==OsWindows branches of single calls (errmap.go); a mismatch is reported under kind error-class, separate from kind outcome",
+			"CustomError values and io/fs sentinels (fs.ErrClosed, fs.ErrExist ...) are accepted on both OS types as OS-independent values",
+			"the same PANIC/DEADLOCK on both OS types is not a C17 difference (owned by C07); one on a single side is",
+			"random part of temp names supplied by the harness: the sequence 0,1,0,1.. restarted for every call on each side",
+			"OrefaFS cannot address its root directory under either OS type: its tree is dumped from the top-level names a, b, t0, t1, tmp",
+			"link targets are relative only (an absolute path of one OS is not a portable operand); symbolic-link calls only on MemFS (OrefaFS does not advertise FeatSymlink)",
+			"drive-letter case of volume names is undocumented: the observed behaviour is recorded (coverage.volumes.drive_letter_case_observed) and only its consistency is checked",
+		},
+		Violations: rep.NewCount(),
+	}
+
+	if code != 2 {
+		_ = ev.Write(filepath.Join(verifDir, "evidence", *id+".json"), e)
+	}
+
+	fmt.Printf("C17 summary: static checks=%d (failing calls=%d) | volume sequences=%d (len<=%d, %d calls) | pair states=%d transitions=%d histories<=%d completed=%d exhaustive=%v | distinct outcome classes=%d | violation signatures new=%d known=%d\n",
+		sst.Checked, sst.FailingCalls, vst.Sequences, vl, vst.Calls, states, trans, d, depthDone, exh, len(outcomes), rep.NewCount(), len(rep.KnownMatched()))
+
+	if skipped != "" {
+		fmt.Println("C17:", skipped)
+	}
+
+	os.Exit(code)
+}
+
+// doReplay re-executes a replay file of part (C).
+func doReplay(path, tier string) int {
+	b, err := os.ReadFile(path)
+	if err != nil {
+		fmt.Fprintln(os.Stderr, err)
+
+		return 2
+	}
+
+	var f struct {
+		Signature map[string]string `json:"signature"`
+		Replay    struct {
+			Part    string   `json:"part"`
+			FS      string   `json:"fs"`
+			History []string `json:"history"`
+			Op      string   `json:"op"`
+		} `json:"replay"`
+	}
+
+	if err := json.Unmarshal(b, &f); err != nil {
+		fmt.Fprintln(os.Stderr, err)
+
+		return 2
+	}
+
+	if f.Replay.Part != "pair" {
+		fmt.Println("replay files of parts static/volumes are self-describing (fresh instance, fixture/history, call); only part pair is re-executed here")
+
+		return 0
+	}
+
+	found := false
+
+	for _, t := range []string{tier, "thorough"} {
+		s := pairFactory(t)(f.Replay.FS).(*pairSys)
+		idx := map[string]int{}
+
+		for i := range s.ops {
+			idx[s.OpString(i)] = i
+		}
+
+		okAll := true
+
+		for _, o := range append(append([]string{}, f.Replay.History...), f.Replay.Op) {
+			if _, ok := idx[o]; !ok {
+				okAll = false
+			}
+		}
+
+		if !okAll {
+			continue
+		}
+
+		found = true
+
+		if err := s.Reset(); err != nil {
+			fmt.Fprintln(os.Stderr, err)
+
+			return 2
+		}
+
+		for _, o := range f.Replay.History {
+			sr := s.Step(idx[o])
+			fmt.Printf("  %-40s -> %s\n", o, sr.Outcome)
+		}
+
+		sr := s.Step(idx[f.Replay.Op])
+		fmt.Printf("  %-40s -> %s\n", f.Replay.Op, sr.Outcome)
+
+		reproduced := false
+
+		for _, v := range sr.Viols {
+			same := kf.Sig(v.Sig).String() == kf.Sig(f.Signature).String()
+			if same {
+				reproduced = true
+			}
+
+			fmt.Printf("violation (same signature: %v): %s\n  %s\n", same, kf.Sig(v.Sig), v.Detail)
+		}
+
+		if reproduced {
+			fmt.Println("REPRODUCED")
+
+			return 1
+		}
+
+		fmt.Println("not reproduced")
+
+		return 0
+	}
+
+	if !found {
+		fmt.Fprintln(os.Stderr, "replay: operations not in the alphabet of this build")
+	}
+
+	return 2
 }
